@@ -550,6 +550,10 @@ def lift_raw(v):
 def equals(ex, a, b):
     """Python == for non-array values -> host bool or Sym bool."""
     a, b = lift_raw(a), lift_raw(b)
+    if type(a).__name__ == "JoinV" or type(b).__name__ == "JoinV":
+        if type(a).__name__ == "JoinV" and type(b).__name__ == "JoinV":
+            return and_(ex, equals(ex, a.sep, b.sep), seq_equal(ex, a.seq, b.seq))
+        raise Unsupported("comparison of a joined sequence with a plain string")
     if isinstance(a, RecV) or isinstance(b, RecV):
         return record_equal(ex, a, b)
     if isinstance(a, CondV):
@@ -595,6 +599,12 @@ def equals(ex, a, b):
         if num_kind(y) or y is None or isinstance(y, (SeqV, MapV, Obj)):
             return False
         raise Unsupported("equality of abstract well string with symbolic string")
+    if isinstance(a, Arr2V) and isinstance(b, Arr2V):
+        i, j = z3.Int(ex.p.fresh_name("ei")), z3.Int(ex.p.fresh_name("ej"))
+        e = zbool(unwrap_bool(equals(ex, a.fn(i, j), b.fn(i, j))))
+        rng = z3.And(i >= 0, i < term(a.rows, "int"), j >= 0, j < term(a.cols, "int"))
+        return mk_bool(z3.And(term(a.rows, "int") == term(b.rows, "int"), term(a.cols, "int") == term(b.cols, "int"),
+                              z3.ForAll([i, j], z3.Implies(rng, e))))
     if isinstance(a, SeqV) and isinstance(b, SeqV):
         if (a.kind == "tuple") != (b.kind == "tuple") and "array" not in (a.kind, b.kind):
             return False
